@@ -95,12 +95,18 @@ def leaves(dst):
     return out
 
 
-def all_ids(e, acc):
-    from miasm.expression.expression import ExprId
+def all_ids(e, acc, alien=None):
+    """collect the ExprId leaves of e; nodes that are not value expressions (e.g. an ExprAssign used as a value) go
+    to `alien`"""
+    from miasm.expression.expression import (ExprId, ExprInt, ExprLoc, ExprMem, ExprOp, ExprSlice, ExprCompose,
+                                             ExprCond)
+    value_nodes = (ExprId, ExprInt, ExprLoc, ExprMem, ExprOp, ExprSlice, ExprCompose, ExprCond)
 
     def visit(x):
         if isinstance(x, ExprId):
             acc.add(x)
+        elif alien is not None and not isinstance(x, value_nodes):
+            alien.append(x)
         return x
     e.visit(visit)
 
@@ -128,8 +134,12 @@ def check_ircfg(arch, lifter, ircfg, allowed):
                         fails.append(("irdst-width", "IRDst written with width %d, the lifter's IRDst has %d"
                                       % (dst.size, irdst.size)))
                 ids = set()
-                all_ids(dst, ids)
-                all_ids(src, ids)
+                alien = []
+                all_ids(dst, ids, alien)
+                all_ids(src, ids, alien)
+                for x in alien[:1]:
+                    fails.append(("statement-as-value", "%s = %s contains %s (%s), which is no value expression"
+                                  % (dst, src, x, type(x).__name__)))
                 for i in ids:
                     if i != irdst and i not in allowed:
                         fails.append(("foreign-register", "%s (width %d) in %s = %s is no register of %s.regs"
